@@ -275,10 +275,10 @@ def wrapper(a: int, b: int, c: int, arity: int, step: int, nargs: int) -> bool:
 def wrapper_history(a: int, b: int, c: int, arity: int, o1: int, o2: int, o3: int, o4: int) -> bool:
     """
     pre: 1 <= arity <= 3 and arity == CFG.get('arity', arity)
-    pre: 0 <= o1 <= 4 and 0 <= o2 <= 4 and 0 <= o3 <= 4 and 0 <= o4 <= 4 and o1 == CFG.get('o1', o1)
+    pre: 0 <= o1 <= 5 and 0 <= o2 <= 5 and 0 <= o3 <= 5 and 0 <= o4 <= 5 and o1 == CFG.get('o1', o1)
     post: _
     """
-    # histories of  0 call | 1 define body A | 2 define body B | 3 delete the name | 4 define a body of ANOTHER arity  after the wrapper was obtained: every call
+    # histories of  0 call | 1 define body A | 2 define body B | 3 delete the name | 4 define a body of ANOTHER arity | 5 read the handle again  after the wrapper was obtained: every call
     # through the wrapper runs the CURRENT definition of the name (the one it was created from while the name is unbound) and
     # agrees with the Klong call whenever the name is bound
     enter()
@@ -291,7 +291,7 @@ def wrapper_history(a: int, b: int, c: int, arity: int, o1: int, o2: int, o3: in
         orig = A_[arity][1]; bound = orig
         args = [a, b, c][:arity]
         other = 1 if arity > 1 else 2                 # the arity of the redefinition made by op 4
-        cur_arity = arity
+        cur_arity = arity; orig_arity = arity
         K['A'] = a; K['B'] = b; K['C'] = c
         for o in [o1, o2, o3, o4][:CFG.get('steps', 4)]:
             if o == 1:
@@ -303,7 +303,13 @@ def wrapper_history(a: int, b: int, c: int, arity: int, o1: int, o2: int, o3: in
             elif o == 3:
                 if bound is None:
                     continue
-                del K['fn']; bound = None; cur_arity = arity
+                del K['fn']; bound = None; cur_arity = orig_arity
+            elif o == 5:
+                # the handle is read AGAIN (klong['fn']): it is created from the definition current NOW, which is the one it
+                # falls back to when the name is deleted later
+                if bound is None:
+                    continue
+                w = K['fn']; orig = bound; orig_arity = cur_arity
             else:
                 cargs = [a, b, c][:cur_arity]
                 got = w(*cargs)
@@ -383,7 +389,7 @@ def imported(a: int, b: int, c: int, which: int) -> bool:
 
 def bounds(tier):
     return {"callables": [t[0] for t in TABLE], "call forms": ["direct", "via variable", "@", "projection+fill", "each/over", "read back"],
-            "rebinding": "name bound once / bound to another callable first", "wrapper": "arity 1..3, redefined / deleted / unchanged, 0..4 arguments; histories of 4 operations (call, define A, define B, delete)",
+            "rebinding": "name bound once / bound to another callable first", "wrapper": "arity 1..3, redefined / deleted / unchanged, 0..4 arguments; histories of 4 operations (call, define A, define B, delete, define another arity, read the handle again); quick: arity 2, thorough: arity 1..3",
             "data": "int, vector (len <= 3), string (len <= 2), dictionary, nested list, symbol", "values": "unbounded symbolic integers"}
 
 
@@ -396,6 +402,6 @@ def obligations(tier):
     obs += [{"name": "data values", "fn": "data", "cfg": {}, "timeout": T_},
             {"name": "function wrapper", "fn": "wrapper", "cfg": {}, "timeout": T_},
             ] + [{"name": "function wrapper: call / redefine / delete histories, arity %d, first op %d" % (ar, o1), "fn": "wrapper_history",
-                  "cfg": {"steps": 4, "arity": ar, "o1": o1}, "timeout": T_} for ar in (1, 2, 3) for o1 in range(5)] + [
+                  "cfg": {"steps": 4, "arity": ar, "o1": o1}, "timeout": T_ + 200} for ar in ((2,) if q else (1, 2, 3)) for o1 in range(6)] + [
             {"name": "imported signatures", "fn": "imported", "cfg": {}, "timeout": T_}]
     return obs
